@@ -1,4 +1,6 @@
-use crate::wal::config::{MAX_FILE_SIZE, now_millis_str, sanitize_namespace, wal_data_dir};
+use crate::wal::config::{
+    MAX_FILE_SIZE, advance_millis_past, now_millis_str, sanitize_namespace, wal_data_dir,
+};
 use std::cell::RefCell;
 use std::fs;
 use std::path::{Path, PathBuf};
@@ -51,6 +53,19 @@ impl WalPathManager {
 
     pub(crate) fn create_new_file(&self) -> std::io::Result<String> {
         self.ensure_root()?;
+        // File names order the log across restarts (recovery scans the files in name
+        // order): a new file must sort after every file already there, also when the wall
+        // clock stepped back since they were created (and must never reuse a name, which
+        // would truncate that file).
+        if let Ok(dir) = fs::read_dir(&self.root) {
+            let newest = dir
+                .flatten()
+                .filter_map(|e| e.file_name().to_str().and_then(|s| s.parse::<u64>().ok()))
+                .max();
+            if let Some(ms) = newest {
+                advance_millis_past(ms);
+            }
+        }
         let file_name = now_millis_str();
         let path = self.root.join(&file_name);
         #[cfg(walrus_verif)]
